@@ -185,44 +185,17 @@ func resolveFuncValue(v ssa.Value, d int) *ssa.Function {
 			return f
 		}
 		return nil
-	case *ssa.Call:
-		// a function value built by an in-package constructor (eg.Go(newContextWorker(ctx, &x, n, f))): the literal every
-		// return of the constructor yields
-		cal := origin(x.Call.StaticCallee()) // the generic body when the constructor is an instance (lessFromCompare[T])
-		if cal == nil || cal.Blocks == nil || cal.Signature.Results().Len() != 1 || curCtx == nil || !curCtx.inModule(cal) {
-			return nil
-		}
-		if _, isSig := cal.Signature.Results().At(0).Type().Underlying().(*types.Signature); !isSig {
-			return nil
-		}
-		var lit *ssa.Function
-		nRet := 0
-		for _, b := range cal.Blocks {
-			for _, in := range b.Instrs {
-				ret, ok := in.(*ssa.Return)
-				if !ok || len(ret.Results) != 1 {
-					continue
-				}
-				nRet++
-				rv := returnedValue(ret, 0)
-				for {
-					ct, isCT := rv.(*ssa.ChangeType) // func literal returned as a named function type (xsort.Less[T])
-					if !isCT {
-						break
-					}
-					rv = ct.X
-				}
-				if mc, ok := rv.(*ssa.MakeClosure); ok {
-					if f, ok := mc.Fn.(*ssa.Function); ok && f.Parent() == cal {
-						lit = f
-					}
-				}
-			}
-		}
-		if nRet == 1 {
-			return lit
+	case *ssa.Extract:
+		// c, trigger := newTrigger(): one of several results of such a constructor
+		if call, isCall := x.Tuple.(*ssa.Call); isCall {
+			return funcResultOfCtor(call, x.Index)
 		}
 		return nil
+	case *ssa.Call:
+		if x.Call.Signature().Results().Len() != 1 {
+			return nil
+		}
+		return funcResultOfCtor(x, 0)
 	case *ssa.UnOp:
 		if x.Op != token.MUL {
 			return nil
@@ -1198,4 +1171,44 @@ func isPromotedHop(t types.Type, i int) bool {
 	}
 	_, isStruct := s.Field(i).Type().Underlying().(*types.Struct)
 	return isStruct
+}
+
+// funcResultOfCtor: a function value built by an in-package constructor (eg.Go(newContextWorker(ctx, &x, n, f))): the literal
+// every return of the constructor yields as result #idx.
+func funcResultOfCtor(x *ssa.Call, idx int) *ssa.Function {
+	cal := origin(x.Call.StaticCallee()) // the generic body when the constructor is an instance (lessFromCompare[T])
+	if cal == nil || cal.Blocks == nil || cal.Signature.Results().Len() <= idx || curCtx == nil || !curCtx.inModule(cal) {
+		return nil
+	}
+	if _, isSig := cal.Signature.Results().At(idx).Type().Underlying().(*types.Signature); !isSig {
+		return nil
+	}
+	var lit *ssa.Function
+	nRet := 0
+	for _, b := range cal.Blocks {
+		for _, in := range b.Instrs {
+			ret, ok := in.(*ssa.Return)
+			if !ok || len(ret.Results) <= idx {
+				continue
+			}
+			nRet++
+			rv := returnedValue(ret, idx)
+			for {
+				ct, isCT := rv.(*ssa.ChangeType) // func literal returned as a named function type (xsort.Less[T])
+				if !isCT {
+					break
+				}
+				rv = ct.X
+			}
+			if mc, ok := rv.(*ssa.MakeClosure); ok {
+				if f, ok := mc.Fn.(*ssa.Function); ok && f.Parent() == cal {
+					lit = f
+				}
+			}
+		}
+	}
+	if nRet == 1 {
+		return lit
+	}
+	return nil
 }
